@@ -1,4 +1,4 @@
-import DryocVerif.Proofs.ProtectedStep2
+import DryocVerif.Proofs.ProtectedRec
 /-
 Helpers for C14 / C15 / C19 on top of the invariant machinery:
 page coverage of `mprotect`, unpacking of `Inv` for one region, runs of tokens.
@@ -52,25 +52,51 @@ theorem good_init (P : Nat) : GoodL P Kernel.init [] where
   ok := fun _ h => by simp at h
   disj := List.Pairwise.nil
   outside := fun _ _ => rfl
+  led := fun _ => rfl
+  albase := ⟨List.Pairwise.nil, fun _ h => by simp [Kernel.init] at h⟩
 
-theorem inv_init (c : Cfg) (oracle : Nat → Bool) : Inv c (State.init oracle) := good_init c.P
+theorem rec_init (oracle : Nat → Bool) : RecOK (State.init oracle) := by
+  intro sl h; simp [State.init] at h
+
+theorem inv_init (c : Cfg) (oracle : Nat → Bool) : Inv c (State.init oracle) :=
+  ⟨good_init c.P, rec_init oracle⟩
 
 theorem tight_init (c : Cfg) (oracle : Nat → Bool) : Tight c (State.init oracle) :=
   fun _ _ => rfl
 
-theorem inv_step {c : Cfg} (hP : 0 < c.P) {s : State} (h : Inv c s) (t : Tok) :
-    Inv c (step c s t).2 :=
-  inv_stepCore hP (s := resetRel s) h t
+/-- the invariant does not look at the release log -/
+theorem Inv.resetRel {c : Cfg} {s : State} (h : Inv c s) : Inv c (Model.Protected.resetRel s) := ⟨h.k, h.rcd⟩
+theorem Inv.of_resetRel {c : Cfg} {s : State} (h : Inv c (Model.Protected.resetRel s)) : Inv c s := ⟨h.k, h.rcd⟩
+
+/-- every token keeps the records in step with the types (unconditionally) -/
+theorem rec_step {c : Cfg} {s : State} (h : RecOK s) (t : Tok) : RecOK (step c s t).2 :=
+  rec_stepCore (s := resetRel s) h t
+
+theorem rec_runState {c : Cfg} (toks : List Tok) {s : State} (h : RecOK s) : RecOK (runState c s toks) := by
+  induction toks generalizing s with
+  | nil => exact h
+  | cons t ts ih => exact ih (rec_step h t)
+
+/-- `Inv` is preserved by every token except a `zeroize` of a non-empty `Protected` region that is not `Unlocked`
+read-write (`ZeroizesProtected`), which makes pages and TYPE disagree -/
+theorem inv_step {c : Cfg} (hP : 0 < c.P) {s : State} (h : Inv c s) (t : Tok)
+    (hz : ¬ ZeroizesProtected s t) : Inv c (step c s t).2 :=
+  ⟨invK_stepCore hP (s := resetRel s) h.k h.rcd t hz, rec_step h.rcd t⟩
 
 theorem tight_step {c : Cfg} (hP : 0 < c.P) {s : State} (h : Inv c s) (ht : Tight c s) (t : Tok)
     (hno : c.undo = true ∨ ¬ LocksNoAccess s t) : Tight c (step c s t).2 :=
-  tight_stepCore hP (s := resetRel s) h ht t hno
+  tight_stepCore hP (s := resetRel s) h.k h.rcd ht t hno
 
-theorem inv_runState {c : Cfg} (hP : 0 < c.P) (toks : List Tok) {s : State} (h : Inv c s) :
-    Inv c (runState c s toks) := by
+/-- no token of the run is a `zeroize` of a non-empty `Protected` region other than `Unlocked` read-write -/
+def NoProtZeroize (c : Cfg) : State → List Tok → Prop
+  | _, [] => True
+  | s, t :: ts => ¬ ZeroizesProtected s t ∧ NoProtZeroize c (step c s t).2 ts
+
+theorem inv_runState {c : Cfg} (hP : 0 < c.P) (toks : List Tok) {s : State} (h : Inv c s)
+    (hz : NoProtZeroize c s toks) : Inv c (runState c s toks) := by
   induction toks generalizing s with
   | nil => exact h
-  | cons t ts ih => exact ih (inv_step hP h t)
+  | cons t ts ih => exact ih (inv_step hP h t hz.1) hz.2
 
 /-- no token of the run locks a non-empty `NoAccess` region (only needed for the leaky variant
 `c.undo = false`) -/
@@ -79,25 +105,26 @@ def NoNALock (c : Cfg) : State → List Tok → Prop
   | s, t :: ts => ¬ LocksNoAccess s t ∧ NoNALock c (step c s t).2 ts
 
 theorem tight_runState {c : Cfg} (hP : 0 < c.P) (toks : List Tok) {s : State} (h : Inv c s)
-    (ht : Tight c s) (hno : c.undo = true ∨ NoNALock c s toks) : Tight c (runState c s toks) := by
+    (ht : Tight c s) (hz : NoProtZeroize c s toks) (hno : c.undo = true ∨ NoNALock c s toks) :
+    Tight c (runState c s toks) := by
   induction toks generalizing s with
   | nil => exact ht
   | cons t ts ih =>
-    refine ih (inv_step hP h t) (tight_step hP h ht t ?_) ?_
+    refine ih (inv_step hP h t hz.1) (tight_step hP h ht t ?_) hz.2 ?_
     · exact hno.imp id (fun h => h.1)
     · exact hno.imp id (fun h => h.2)
 
 /-- every state met along a run satisfies the invariant -/
-theorem inv_run {c : Cfg} (hP : 0 < c.P) (toks : List Tok) {s : State} (h : Inv c s) :
-    ∀ r ∈ run c s toks, Inv c r.2 := by
+theorem inv_run {c : Cfg} (hP : 0 < c.P) (toks : List Tok) {s : State} (h : Inv c s)
+    (hz : NoProtZeroize c s toks) : ∀ r ∈ run c s toks, Inv c r.2 := by
   induction toks generalizing s with
   | nil => intro r hr; simp [run] at hr
   | cons t ts ih =>
     intro r hr
     simp only [run, List.mem_cons] at hr
     rcases hr with rfl | hr
-    · exact inv_step hP h t
-    · exact ih (inv_step hP h t) r hr
+    · exact inv_step hP h t hz.1
+    · exact ih (inv_step hP h t hz.1) hz.2 r hr
 
 /-! ### unpacking `Inv` for one live slot -/
 
@@ -115,7 +142,7 @@ theorem inv_disjoint {c : Cfg} {s : State} (h : Inv c s) {i j : Nat} {a b : Slot
     (ha : a.gone = false) (hb : b.gone = false) (p : Nat) :
     ¬ (inBlock c.P a.o.v p ∧ inBlock c.P b.o.v p) := by
   obtain ⟨l1, l2, hs, hl⟩ := slot_split hi
-  have g := good_head hs ha h
+  have g := good_head hs ha h.k
   have hd := (List.pairwise_cons.mp g.disj).1
   have hmem : blkOf b.o ∈ blks l1 ++ blks l2 := by
     rw [hs] at hj
@@ -194,6 +221,36 @@ instance instDecNoNALock (c : Cfg) : (s : State) → (toks : List Tok) → Decid
   | s, t :: ts =>
     have := instDecNoNALock c (step c s t).2 ts
     inferInstanceAs (Decidable (¬ LocksNoAccess s t ∧ NoNALock c (step c s t).2 ts))
+
+def zeroizesProtectedB (s : State) (t : Tok) : Bool :=
+  decide (t.op = .zeroize) &&
+    match s.slots[t.idx]? with
+    | some sl => !sl.gone && decide (0 < sl.o.v.len) && decide (sl.o.st ≠ .plain) &&
+        decide (sl.o.st ≠ .prot .unlocked .rw)
+    | none => false
+
+theorem zeroizesProtectedB_iff (s : State) (t : Tok) : zeroizesProtectedB s t = true ↔ ZeroizesProtected s t := by
+  unfold zeroizesProtectedB ZeroizesProtected
+  cases h : s.slots[t.idx]? with
+  | none => simp
+  | some sl => simp [and_assoc]
+
+instance (s : State) (t : Tok) : Decidable (ZeroizesProtected s t) :=
+  decidable_of_iff _ (zeroizesProtectedB_iff s t)
+
+instance instDecNoProtZeroize (c : Cfg) : (s : State) → (toks : List Tok) → Decidable (NoProtZeroize c s toks)
+  | _, [] => isTrue trivial
+  | s, t :: ts =>
+    have := instDecNoProtZeroize c (step c s t).2 ts
+    inferInstanceAs (Decidable (¬ ZeroizesProtected s t ∧ NoProtZeroize c (step c s t).2 ts))
+
+/-- histories without a `zeroize` token trivially satisfy the side condition of `inv_runState` -/
+theorem noProtZeroize_of_no_zeroize (c : Cfg) (toks : List Tok) (s : State) (h : ∀ t ∈ toks, t.op ≠ .zeroize) :
+    NoProtZeroize c s toks := by
+  induction toks generalizing s with
+  | nil => trivial
+  | cons t ts ih =>
+    exact ⟨fun hl => h t (by simp) hl.1, ih _ (fun t' ht' => h t' (by simp [ht']))⟩
 
 /-- histories without a `lock` token trivially satisfy the side condition -/
 theorem noNALock_of_no_lock (c : Cfg) (toks : List Tok) (s : State) (h : ∀ t ∈ toks, t.op ≠ .lock) :
